@@ -22,16 +22,18 @@ pub mod c09;
 pub mod c10;
 pub mod cprog;
 pub mod c13;
+pub mod c14;
 pub mod c15;
 pub mod c16;
 pub mod c17;
+pub mod c18;
 pub mod nsgen;
 pub mod progs;
 
 use driver::Check;
 
 pub fn checks() -> Vec<&'static dyn Check> {
-    vec![&c08::C08, &c01::C01, &cprog::C02, &cprog::C03, &cprog::C04, &cprog::C05, &c06::C06, &c07::C07, &c09::C09, &c10::C10, &c11::C11, &c12::C12, &c13::C13, &c15::C15, &c16::C16, &c17::C17]
+    vec![&c08::C08, &c01::C01, &cprog::C02, &cprog::C03, &cprog::C04, &cprog::C05, &c06::C06, &c07::C07, &c09::C09, &c10::C10, &c11::C11, &c12::C12, &c13::C13, &c14::C14, &c15::C15, &c16::C16, &c17::C17, &c18::C18]
 }
 
 pub fn find_check(id: &str) -> Option<&'static dyn Check> {
